@@ -14,6 +14,14 @@ All theorems are about the functions of `FeatModel.Model.Partition`, `PartitionR
 the decidable predicates `Mesh.consistent`, `isPartition`, `Graph.wf` (evaluated on every generated input by the
 `hypotheses` stream).  The refinement model is C10's (`FeatModel.Refine`, imported read-only).
 
+Modelled as UNBOUNDED: `Index` (64-bit unsigned: entity / cell / vertex numbers, graph pointers), the `int` ranks of
+`comm_ranks` / `std::map<int, halo>` / `extract_patch(…, int rank)`, the `char` mask of `Graph::_render_injectify`, the
+`~Index(0)` sentinel of `PatchHaloSplitter` (an `Option`-like "not in patch") are all `Nat` / lists here; only
+`PartiIterative`'s distances keep their 64-bit wrap-around (`% 2^64`) and its floating-point threshold is an input.
+Narrowing, fixed scratch sizes or masks in the C++ are therefore invisible to the theorems; the stream `boundary-sizes`
+of `checks/props/c12.py` (rank counts and neighbour counts crossing 127/128/255/256, entity indices crossing
+1000/2^15/2^16, perfect-power cell counts for the threshold) is what ties these types to the code.
+
 Refinement clause: cover-once (dim ≤ 3), injectivity, halo agreement (same order) and halo completeness (same shared
 set) in every dimension, neighbour completeness/symmetry (dim ≤ 3) are proved for EVERY number of joint refinements,
 for both shape families (simplex / hypercube), for the topology-free (simple) target refiner that patch parts and halos
@@ -316,6 +324,24 @@ theorem C12.child_halo_agree (m : Mesh) (p : Parti) (childOf : List Nat) (hm : m
   have h := C12.halo_agree m p hm hp a b d hab hd
   unfold haloBase toBase at h
   exact childHalo_agree_of _ _ _ _ _ _ h
+
+/-- the form of `childHalo` the driver executes (parent halos and child target sets computed once) -/
+theorem C12.childHalo_eq_from (m : Mesh) (p : Parti) (childOf : List Nat) (a ch b dh d : Nat) :
+    childHalo m p childOf a ch b dh d =
+      childHaloFrom (childTarget m (p.row a) childOf ch d) (childTarget m (p.row b) childOf dh d)
+        (halo m p a b d) (halo m p b a d) := rfl
+
+/-- **pair-only for split halos**: the halo between child `ch` of parent `a` and child `dh` of parent `b` is determined
+by the cells of the two parents, the child numbers of THEIR cells and the cell count - independent of every other
+parent, of the other parents' children and of the order in which the splitter processes them -/
+theorem C12.child_halo_pair_only (m : Mesh) (p p' : Parti) (childOf childOf' : List Nat) (a ch b dh d : Nat)
+    (hn : p.nImg = p'.nImg) (ha : p.row a = p'.row a) (hb : p.row b = p'.row b)
+    (hca : ∀ c ∈ p.row a, childOf.getD c 0 = childOf'.getD c 0)
+    (hcb : ∀ c ∈ p.row b, childOf.getD c 0 = childOf'.getD c 0) :
+    childHalo m p childOf a ch b dh d = childHalo m p' childOf' a ch b dh d := by
+  unfold childHalo childTarget
+  rw [C12.halo_depends_on_pair_only m p p' a b d hn ha hb, C12.halo_depends_on_pair_only m p p' b a d hn hb ha,
+    childCells_congr (p.row a) childOf childOf' ch hca, childCells_congr (p.row b) childOf childOf' dh hcb, ha, hb]
 
 /-! ## Parti2Lvl: exactly the requested number of non-empty patches, or a reported failure -/
 
